@@ -1,0 +1,32 @@
+//go:build verif
+
+package network
+
+// This file exists only in builds with the `verif` tag. It exposes read-only views of unexported run-time state to
+// the external verification harness.
+
+// VerifNodeState is the unexported run-time state of a node.
+type VerifNodeState struct {
+	Visited         bool
+	IsActive        bool
+	LastActivation  float64
+	LastActivation2 float64
+}
+
+func (n *NNode) VerifState() VerifNodeState {
+	return VerifNodeState{Visited: n.visited, IsActive: n.isActive, LastActivation: n.lastActivation, LastActivation2: n.lastActivation2}
+}
+
+// VerifFastState is a copy of the fast solver's signal arrays.
+type VerifFastState struct {
+	Signals        []float64
+	BeingProcessed []float64
+	Bias           []float64
+	Sensors, Bias0 int
+}
+
+func (s *FastModularNetworkSolver) VerifState() VerifFastState {
+	cp := func(x []float64) []float64 { y := make([]float64, len(x)); copy(y, x); return y }
+	return VerifFastState{Signals: cp(s.neuronSignals), BeingProcessed: cp(s.neuronSignalsBeingProcessed),
+		Bias: cp(s.biasList), Sensors: s.sensorNeuronCount, Bias0: s.biasNeuronCount}
+}
